@@ -53,6 +53,7 @@ def run(ctx):
     rng = ctx.rng
     T = I.tree
     reqs, exp = [], []
+    earlier = []
     for i in range(ctx.budget(250, 4000)):
         origin, d = trees.mixed_tree(ctx, rng, p_parsed=0.5, names=False, none_items=0.0, wild=0.0,
                                      ops=["AndOperation", "OrOperation", "UnknownOperation"])
@@ -90,6 +91,35 @@ def run(ctx):
                 ctx.case((repr(common.strip_tree(d)), a, default_or), nontrivial=has_op,
                          sample={"query": str(o), "true terms": [list(p) for p in terms if tau[p]],
                                  "matching paths": sorted(map(list, ok))} if has_op and len(terms) > 2 else None)
+                # ---- re-entrant use of one propagator: while it walks this tree (at the first access to the children
+                # of one operation node) the same object propagates another, earlier tree; both answers must be the
+                # ones a fresh propagator gives (state kept on the instance between the steps of a call would show)
+                if earlier and len(reqs) % 5 == 0 and has_op:
+                    o2 = common.load_tree(named)
+                    opn = [x for x in trees.all_nodes(o2) if isinstance(x, T.BaseOperation)]
+                    tgt = rng.choice(opn)
+                    eo, em, eot, edef, eok, eko = rng.choice([e for e in earlier if e[3] == default_or] or earlier)
+                    mp2 = I.naming.MatchingPropagator(T.OrOperation if edef else T.AndOperation)
+                    state = {"done": False, "inner": None}
+                    base_cls = type(tgt)
+
+                    def _children(self, base_cls=base_cls, state=state, mp2=mp2, eo=eo, em=em, eot=eot):
+                        if not state["done"]:
+                            state["done"] = True
+                            state["inner"] = mp2(eo, em, eot)
+                        return base_cls.children.fget(self)
+                    tgt.__class__ = type(base_cls.__name__, (base_cls,), {"children": property(_children)})
+                    if edef == default_or:
+                        ok2, ko2 = mp2(o2, matching, other)
+                        ctx.count("re-entrant propagation")
+                        if state["inner"] is not None and (set(state["inner"][0]), set(state["inner"][1])) != (eok, eko):
+                            ctx.fail("a propagation started while the same propagator walks another tree gives a "
+                                     "different answer than a fresh propagator", {"tree": named, "default_or": default_or})
+                        if (set(ok2), set(ko2)) != (set(ok), set(ko)):
+                            ctx.fail("a propagation interrupted by another call on the same propagator gives a different "
+                                     "answer than a fresh propagator", {"tree": named, "default_or": default_or})
+                if len(earlier) < 40:
+                    earlier.append((o, set(matching), set(other), default_or, set(ok), set(ko)))
                 reqs.append({"op": "propagate", "tree": named, "matching": sorted(map(list, matching)),
                              "other": sorted(map(list, other)), "default_or": default_or})
                 exp.append({"ok": sorted(map(list, ok)), "ko": sorted(map(list, ko))})
